@@ -126,6 +126,9 @@ def check(run, prog, tier):
     run.rule("C08-O", "the rotating frame of a superoperator has its origin at time zero, not at the first point of the axis: "
                       "conversion and application account for the phases at the first point", minimum=2)
     rule_O(run, prog, cls)
+    run.rule("C08-P", "a step of the step-by-step mode continues from a value in the rotating frame: a value converted to the "
+                      "laboratory frame in between is brought back (or the step is refused)", minimum=1)
+    rule_P(run, prog, cls)
 
 
 def rule_O(run, prog, cls):
@@ -167,6 +170,32 @@ def rule_O(run, prog, cls):
                        message="%s never looks at the first time of the axis: with a frame that rotates as exp(-i Omega t) in the "
                                "absolute time and an axis that does not start at zero, %s" % (f.short, why), loc=f.loc())
     return n
+
+
+def rule_P(run, prog, cls):
+    """'Computing it step by step gives the same values as computing it all at once': calculate_next() multiplies the value
+    it keeps by the step over one interval, which is a rotating-frame superoperator when the Hamiltonian has RWA, and marks
+    the result as rotating-frame.  convert_from_RWA() is public and is what a user calls to look at the value after a
+    step.  Before the first statement that continues from the stored data there is a test of self.is_in_rwa that brings
+    the stored value back into the rotating frame (convert_to_RWA) or refuses."""
+    rid = "C08-P"
+    f = prog.find_method(cls, "calculate_next")
+    prog.consulted.add(f.relpath)
+    cont = [c_ for c_ in walk_no_nested(f.node) if isinstance(c_, ast.Call) and (call_name(c_) or "").split(".")[-1] in ("tensordot", "einsum", "dot")
+            and any(isinstance(x_, ast.Attribute) and norm(x_) == "self.data" for a_ in c_.args for x_ in ast.walk(a_))]
+    if not cont:
+        raise AnalysisError("calculate_next: no statement that continues from the stored data found")
+    first = min(c_.lineno for c_ in cont)
+    guards = [i_ for i_ in walk_no_nested(f.node) if isinstance(i_, ast.If) and i_.lineno < first
+              and any(isinstance(x_, ast.Attribute) and norm(x_) == "self.is_in_rwa" for x_ in ast.walk(i_.test))
+              and any((isinstance(y_, ast.Call) and norm(y_.func) == "self.convert_to_RWA") or isinstance(y_, ast.Raise)
+                      for b_ in i_.body for y_ in ast.walk(b_))]
+    run.obligation(rid, f.short, bool(guards), key="frame-of-stored-value",
+                   message="calculate_next multiplies the value it keeps by the rotating-frame step (`%s`) and marks the result as "
+                           "rotating-frame without looking at self.is_in_rwa: after a convert_from_RWA() between two steps the "
+                           "laboratory-frame value is continued as if it were in the rotating frame, and every later value is wrong"
+                           % norm(cont[0])[:60], loc=f.loc(cont[0]), sample={"continuations": len(cont)})
+    return 1
 
 
 def rule_N(run, prog):
